@@ -499,8 +499,9 @@ func packedByteSym(arr *Term, n int, idx *Term) *Term {
 	if v, ok := idx.litVal(); ok && v.IsInt64() && v.Int64() < int64(n) {
 		return packedByte(arr, n, int(v.Int64()))
 	}
-	i := Resize(idx, w, false)
-	sh := bvbin("bvmul", bvbin("bvsub", BVInt(int64(n-1), w), i), BVInt(8, w))
+	// shift amount computed in 64 bits ((n-1-idx)*8 as a shift by 3), then widened
+	sh64 := bvbin("bvshl", bvbin("bvsub", BVInt(int64(n-1), 64), Resize(idx, 64, false)), BVInt(3, 64))
+	sh := Resize(sh64, w, false)
 	return Extract(7, 0, bvbin("bvlshr", arr, sh))
 }
 
@@ -522,8 +523,8 @@ func packedSetByteSym(arr *Term, n int, idx *Term, b *Term) *Term {
 		}
 		return r
 	}
-	i := Resize(idx, w, false)
-	sh := bvbin("bvmul", bvbin("bvsub", BVInt(int64(n-1), w), i), BVInt(8, w))
+	sh64 := bvbin("bvshl", bvbin("bvsub", BVInt(int64(n-1), 64), Resize(idx, 64, false)), BVInt(3, 64))
+	sh := Resize(sh64, w, false)
 	mask := bvbin("bvshl", BVInt(0xff, w), sh)
 	cleared := bvbin("bvand", arr, mk("bvnot", arr.Sort, mask))
 	return bvbin("bvor", cleared, bvbin("bvshl", Resize(b, w, false), sh))
